@@ -89,6 +89,8 @@ package floodsub
 //@   requires s.m != nil
 //@   cs FloodSub.mtx ensures !(s.channelID in self.channels) || !(s in self.channels[s.channelID])
 //@   cs FloodSub.mtx ensures forall c string, sb *subscription trigger dom(self.channels[c], sb) :: (c in self.channels) && (sb in self.channels[c]) ==> old((c in self.channels) && (sb in self.channels[c]))
+// and every other subscription stays registered
+//@   cs FloodSub.mtx ensures forall c string, sb *subscription trigger old(dom(self.channels[c], sb)) :: old((c in self.channels) && (sb in self.channels[c])) && sb != s ==> (c in self.channels) && (sb in self.channels[c])
 
 // ---- C40 ----
 //@ func (*streamHandler).processPacket
